@@ -160,6 +160,8 @@ def judge(site, tool, args, seed, outs):
         if txt == ref:
             continue
         w = _where(ref, txt)
+        if site != 'none' and 'body' in w:
+            w.discard('header:description')     # a consequence of the different random draw, not a separate source
         if not name.startswith('cwd'):
             same_where |= w
         else:
@@ -270,7 +272,7 @@ def bounded_cli(ctx):
                                   'err': per[wi][0]['err'].strip().splitlines()[-1:]})
                 continue
             for key, text in bad:
-                ctx.violation(key, '{} --seed {} {} :: {}'.format(tool, seed, ' '.join(args), text),
+                ctx.violation(key, '{} {}{} :: {}'.format(tool, '' if seed is None else '--seed {} '.format(seed), ' '.join(args), text),
                               {'fn': 'checks.C07:replay_cli', 'args': dict(site=site, tool=tool, args=args, seed=seed,
                                                                          stdin=(bigtxt if stdin == 'BIG' else stdin))})
         # every formula sub-command of the tool must be in the list
